@@ -462,7 +462,7 @@ def _ref_load(ast, resources, main_url, packages, env, sm, pinned=None):
         if kind == "close":
             lineno, url = ev[2], ev[3]
             G = stack.pop()
-            value = _finish(sm, G, lineno, url, handlers, stats)
+            value = _finish(sm, G, lineno, url, handlers, stats, pinned)
             P = stack[-1]
             if G.name:
                 if G.name in P.used_names:
@@ -474,7 +474,7 @@ def _ref_load(ast, resources, main_url, packages, env, sm, pinned=None):
             store.append(value)
             continue
     top = stack[0]
-    value = _finish(sm, top, None, None, handlers, stats)
+    value = _finish(sm, top, None, None, handlers, stats, pinned)
     topdt = value.pop("_dt", None)
     value = apply_section_dt(topdt, value)
     if sm.top.handler:
@@ -482,7 +482,7 @@ def _ref_load(ast, resources, main_url, packages, env, sm, pinned=None):
     return Outcome("accept", tree=value, handlers=handlers, stats=stats)
 
 
-def _finish(sm, G, lineno, url, handlers, stats):
+def _finish(sm, G, lineno, url, handlers, stats, pinned=None):
     U = G.ctype
     # 1. constraints, in item order
     for it in U.items:
@@ -492,19 +492,22 @@ def _finish(sm, G, lineno, url, handlers, stats):
                 raise _Reject("missing-section" if it.kind == "section" else "missing-multisection",
                               lineno, url)
         elif it.wild:
-            if it.required:
-                if it.rawdefaults:
-                    raise _Unspec("U4")
-                if not v:
-                    raise _Reject("missing-wildkey", lineno, url)
+            # a required wildcard map must be filled by the text: keyed defaults are used "only
+            # when the text supplies no key at all", and then the map is not filled
+            if it.required and not v:
+                raise _Reject("missing-wildkey", lineno, url)
         elif it.kind == "key":
             if it.required and not v:
                 raise _Reject("missing-key", lineno, url)
         else:
-            if it.required:
+            if it.required and not v:
                 if it.defaults:
-                    raise _Unspec("U4")
-                if not v:
+                    # zone U4: the documentation forbids defaults on a required multikey, the
+                    # schema parser accepts them; the pinned tree lets them satisfy the minimum
+                    if pinned is None:
+                        raise _Unspec("U4")
+                    pinned.append("U4")
+                else:
                     raise _Reject("missing-multikey", lineno, url)
     # 2. conversion, in item order
     attrs = {}
